@@ -1,379 +1,8 @@
-import GomlVerif.Lemmas.C14Alpha
-/-! Lemmas for C14: the validator `Alpha.validate` is sound (verified validator, closure-free fragment). -/
+import GomlVerif.Lemmas.C14RelMain
+/-! Lemmas for C14: the validator `Alpha.validate` is sound (verified validator; closures included), and the
+renaming theorem as its corollary. -/
 namespace Goml.Alpha
 open Goml Goml.Sem
-
-theorem eqPrim_sound {p q : Prim} (h : eqPrim p q = true) : p = q := by
-  cases p <;> cases q <;> simp [eqPrim] at h <;> simp [h]
-
-theorem aeLhs_matches {l m : Expr} (h : aeLhs l m = true) (v : Val) : armMatches m v = armMatches l v := by
-  cases l <;> cases m <;> simp [aeLhs] at h
-  · rw [eqPrim_sound h]
-  · subst h; cases v <;> simp [armMatches]
-  · subst h
-    rename_i c _ _ _ _
-    cases c <;> cases v <;> simp [armMatches]
-
-/-- statement (A'): `e'` is `e` renamed by `σ` -/
-def VA (S W : Prog) (fuel : Nat) : Prop :=
-  ∀ σ N, injOn σ N = true → ∀ (ρ : Env) (w : World) (e e' : Expr) (B : List String), cfE e = true → scE (moved σ) B e = true → DomOk B ρ →
-    inE N e = true → EnvIn N ρ → aeE σ e e' = true →
-    eval fuel W (renEnv σ ρ) w e' = eval fuel S ρ w e
-def VAL (S W : Prog) (fuel : Nat) : Prop :=
-  ∀ σ N, injOn σ N = true → ∀ (ρ : Env) (w : World) (es es' : List Expr) (B : List String), cfL es = true → scL (moved σ) B es = true → DomOk B ρ →
-    inL N es = true → EnvIn N ρ → aeL σ es es' = true →
-    evalList fuel W (renEnv σ ρ) w es' = evalList fuel S ρ w es
-def VAA (S W : Prog) (fuel : Nat) : Prop :=
-  ∀ σ N, injOn σ N = true → ∀ (ρ : Env) (w : World) (v : Val) (arms arms' : List Arm) (d d' : Option Expr) (B : List String),
-    cfArms arms = true → cfO d = true → scArms (moved σ) B arms = true → scO (moved σ) B d = true → DomOk B ρ →
-    inArms N arms = true → inO N d = true → EnvIn N ρ → aeArms σ arms arms' = true → aeO σ d d' = true →
-    evalArms fuel W (renEnv σ ρ) w v arms' d' = evalArms fuel S ρ w v arms d
-def VB (S W : Prog) (fuel : Nat) : Prop :=
-  (∀ ρ w e, eval fuel W ρ w e = eval fuel S ρ w e) ∧
-  (∀ ρ w es, evalList fuel W ρ w es = evalList fuel S ρ w es) ∧
-  (∀ ρ w v arms d, evalArms fuel W ρ w v arms d = evalArms fuel S ρ w v arms d) ∧
-  (∀ w f args, apply fuel W w f args = apply fuel S w f args)
-
-theorem vA_step {S W : Prog}
-    (himpl : ∀ tr key m, W.impls.find? (fun i => i.1 == tr && i.2.1 == key && i.2.2.1 == m) = S.impls.find? (fun i => i.1 == tr && i.2.1 == key && i.2.2.1 == m)) {n : Nat}
-    (ihA : VA S W n) (ihL : VAL S W n) (ihAA : VAA S W n) (ihB : VB S W n) : VA S W (n + 1) := by
-  intro σ N hσ ρ w e e' B hcf hsc hB hin hρ hae
-  cases e with
-  | var x t =>
-    cases e' with
-    | var y u =>
-      simp only [aeE, beq_iff_eq] at hae
-      subst hae
-      simp only [inE] at hin
-      simp only [eval, lookup_ren hσ ρ x hin hρ]
-      cases hl : lookupEnv ρ x with
-      | some v => rfl
-      | none =>
-        have hnd := lookup_none_dom hl
-        simp only [scE, Bool.or_eq_true, Bool.not_eq_true'] at hsc
-        rcases hsc with h | h
-        · simp only [moved, bne_eq_false_iff_eq] at h
-          simp only [h]
-        · have := hB x h; rw [hnd] at this; cases this
-    | _ => simp [aeE] at hae
-  | prim p =>
-    cases e' with
-    | prim q => simp only [aeE] at hae; rw [eqPrim_sound hae]; simp only [eval]
-    | _ => simp [aeE] at hae
-  | tag i t =>
-    cases e' with
-    | tag j u => simp only [aeE, Bool.and_eq_true, beq_iff_eq] at hae; obtain ⟨hi, ht⟩ := hae; subst hi; simp only [eval, ht]
-    | _ => simp [aeE] at hae
-  | constr c t args =>
-    cases e' with
-    | constr c' t' args' =>
-      simp only [aeE, Bool.and_eq_true, decide_eq_true_eq] at hae
-      obtain ⟨hc, ha⟩ := hae; subst hc
-      simp only [cfE, scE, inE] at hcf hsc hin
-      simp only [eval, ihL σ N hσ ρ w args args' B hcf hsc hB hin hρ ha]
-    | _ => simp [aeE] at hae
-  | tuple t items =>
-    cases e' with
-    | tuple t' items' =>
-      simp only [aeE] at hae
-      simp only [cfE, scE, inE] at hcf hsc hin
-      simp only [eval, ihL σ N hσ ρ w items items' B hcf hsc hB hin hρ hae]
-    | _ => simp [aeE] at hae
-  | array t items =>
-    cases e' with
-    | array t' items' =>
-      simp only [aeE] at hae
-      simp only [cfE, scE, inE] at hcf hsc hin
-      simp only [eval, ihL σ N hσ ρ w items items' B hcf hsc hB hin hρ hae]
-    | _ => simp [aeE] at hae
-  | closure t ps b => simp [cfE] at hcf
-  | letE x v b =>
-    cases e' with
-    | letE y v' b' =>
-      simp only [aeE, Bool.and_eq_true, beq_iff_eq] at hae
-      obtain ⟨⟨hx, hv⟩, hb⟩ := hae; subst hx
-      simp only [cfE, scE, inE, Bool.and_eq_true] at hcf hsc hin
-      simp only [eval, ihA σ N hσ ρ w v v' B hcf.1 hsc.1 hB hin.1.2 hρ hv]
-      cases eval n S ρ w v with
-      | fail f w' => rfl
-      | ok vv w' =>
-        have hρ' : EnvIn N ((x, vv) :: ρ) := by
-          intro p hp
-          simp only [List.mem_cons] at hp
-          rcases hp with hp | hp
-          · rw [hp]; exact hin.1.1
-          · exact hρ p hp
-        have := ihA σ N hσ ((x, vv) :: ρ) w' b b' (x :: B) hcf.2 hsc.2 (domOk_cons hB x vv) hin.2 hρ' hb
-        simpa [renEnv] using this
-    | _ => simp [aeE] at hae
-  | matchE t sc arms d =>
-    cases e' with
-    | matchE t' sc' arms' d' =>
-      simp only [aeE, Bool.and_eq_true] at hae
-      simp only [cfE, scE, inE, Bool.and_eq_true] at hcf hsc hin
-      simp only [eval, ihA σ N hσ ρ w sc sc' B hcf.1.1 hsc.1.1 hB hin.1.1 hρ hae.1.1]
-      cases eval n S ρ w sc with
-      | fail f w' => rfl
-      | ok vv w' => exact ihAA σ N hσ ρ w' vv arms arms' d d' B hcf.1.2 hcf.2 hsc.1.2 hsc.2 hB hin.1.2 hin.2 hρ hae.1.2 hae.2
-    | _ => simp [aeE] at hae
-  | ite c t e =>
-    cases e' with
-    | ite c' t' e2 =>
-      simp only [aeE, Bool.and_eq_true] at hae
-      simp only [cfE, scE, inE, Bool.and_eq_true] at hcf hsc hin
-      simp only [eval, ihA σ N hσ ρ w c c' B hcf.1.1 hsc.1.1 hB hin.1.1 hρ hae.1.1]
-      cases eval n S ρ w c with
-      | fail f w' => rfl
-      | ok vv w' =>
-        cases vv with
-        | bool b => cases b
-                    · exact ihA σ N hσ ρ w' e e2 B hcf.2 hsc.2 hB hin.2 hρ hae.2
-                    · exact ihA σ N hσ ρ w' t t' B hcf.1.2 hsc.1.2 hB hin.1.2 hρ hae.1.2
-        | _ => rfl
-    | _ => simp [aeE] at hae
-  | «while» c b =>
-    cases e' with
-    | «while» c' b' =>
-      have hcf0 := hcf
-      have hsc0 := hsc
-      have hin0 := hin
-      have hae0 := hae
-      simp only [aeE, Bool.and_eq_true] at hae
-      simp only [cfE, scE, inE, Bool.and_eq_true] at hcf hsc hin
-      simp only [eval, ihA σ N hσ ρ w c c' B hcf.1 hsc.1 hB hin.1 hρ hae.1]
-      cases eval n S ρ w c with
-      | fail f w' => rfl
-      | ok vv w' =>
-        cases vv with
-        | bool bb =>
-          cases bb
-          · rfl
-          · simp only [ihA σ N hσ ρ w' b b' B hcf.2 hsc.2 hB hin.2 hρ hae.2]
-            cases eval n S ρ w' b with
-            | fail f w'' => rfl
-            | ok _ w'' => exact ihA σ N hσ ρ w'' (.while c b) (.while c' b') B hcf0 hsc0 hB hin0 hρ hae0
-        | _ => rfl
-    | _ => simp [aeE] at hae
-  | go e =>
-    cases e' with
-    | go e2 =>
-      simp only [aeE] at hae
-      simp only [cfE, scE, inE] at hcf hsc hin
-      simp only [eval, ihA σ N hσ ρ w e e2 B hcf hsc hB hin hρ hae, ihB.2.2.2]
-    | _ => simp [aeE] at hae
-  | cget c i t e =>
-    cases e' with
-    | cget c' i' t' e2 =>
-      simp only [aeE, Bool.and_eq_true, decide_eq_true_eq, beq_iff_eq] at hae
-      obtain ⟨⟨hc, hi⟩, he⟩ := hae; subst hc; subst hi
-      simp only [cfE, scE, inE] at hcf hsc hin
-      simp only [eval, ihA σ N hσ ρ w e e2 B hcf hsc hB hin hρ he]
-    | _ => simp [aeE] at hae
-  | un op t e =>
-    cases e' with
-    | un op' t' e2 =>
-      simp only [aeE, Bool.and_eq_true, decide_eq_true_eq] at hae
-      obtain ⟨ho, he⟩ := hae; subst ho
-      simp only [cfE, scE, inE] at hcf hsc hin
-      simp only [eval, ihA σ N hσ ρ w e e2 B hcf hsc hB hin hρ he]
-    | _ => simp [aeE] at hae
-  | bin op t l r =>
-    cases e' with
-    | bin op' t' l' r' =>
-      simp only [aeE, Bool.and_eq_true, decide_eq_true_eq] at hae
-      obtain ⟨⟨ho, hl⟩, hr⟩ := hae; subst ho
-      simp only [cfE, scE, inE, Bool.and_eq_true] at hcf hsc hin
-      simp only [eval, ihA σ N hσ ρ w l l' B hcf.1 hsc.1 hB hin.1 hρ hl]
-      cases eval n S ρ w l with
-      | fail f w' => rfl
-      | ok a w' => simp only [ihA σ N hσ ρ w' r r' B hcf.2 hsc.2 hB hin.2 hρ hr]
-    | _ => simp [aeE] at hae
-  | call t f args =>
-    cases e' with
-    | call t' f' args' =>
-      simp only [aeE, Bool.and_eq_true] at hae
-      simp only [cfE, scE, inE, Bool.and_eq_true] at hcf hsc hin
-      simp only [eval, ihA σ N hσ ρ w f f' B hcf.1 hsc.1 hB hin.1 hρ hae.1]
-      cases eval n S ρ w f with
-      | fail f w' => rfl
-      | ok fv w' => simp only [ihL σ N hσ ρ w' args args' B hcf.2 hsc.2 hB hin.2 hρ hae.2, ihB.2.2.2]
-    | _ => simp [aeE] at hae
-  | toDyn tr ft t e =>
-    cases e' with
-    | toDyn tr' ft' t' e2 =>
-      simp only [aeE, Bool.and_eq_true, beq_iff_eq] at hae
-      obtain ⟨⟨htr, hk⟩, he⟩ := hae; subst htr
-      simp only [cfE, scE, inE] at hcf hsc hin
-      simp only [eval, ihA σ N hσ ρ w e e2 B hcf hsc hB hin hρ he, hk]
-    | _ => simp [aeE] at hae
-  | dynCall tr m t r args =>
-    cases e' with
-    | dynCall tr' m' t' r' args' =>
-      simp only [aeE, Bool.and_eq_true, beq_iff_eq] at hae
-      obtain ⟨⟨⟨htr, hm⟩, hr⟩, ha⟩ := hae; subst htr; subst hm
-      simp only [cfE, scE, inE, Bool.and_eq_true] at hcf hsc hin
-      simp only [eval, ihA σ N hσ ρ w r r' B hcf.1 hsc.1 hB hin.1 hρ hr]
-      cases eval n S ρ w r with
-      | fail f w' => rfl
-      | ok rv w' =>
-        cases rv with
-        | dyn a key v => simp only [ihL σ N hσ ρ w' args args' B hcf.2 hsc.2 hB hin.2 hρ ha, ihB.2.2.2, himpl]
-        | _ => rfl
-    | _ => simp [aeE] at hae
-  | traitCall tr m t r args =>
-    cases e' with
-    | traitCall tr' m' t' r' args' =>
-      simp only [aeE, Bool.and_eq_true, beq_iff_eq] at hae
-      obtain ⟨⟨⟨htr, hm⟩, hr⟩, ha⟩ := hae; subst htr; subst hm
-      simp only [cfE, scE, inE, Bool.and_eq_true] at hcf hsc hin
-      simp only [eval, ihA σ N hσ ρ w r r' B hcf.1 hsc.1 hB hin.1 hρ hr]
-      cases eval n S ρ w r with
-      | fail f w' => rfl
-      | ok rv w' => simp only [ihL σ N hσ ρ w' args args' B hcf.2 hsc.2 hB hin.2 hρ ha, ihB.2.2.2, himpl]
-    | _ => simp [aeE] at hae
-  | proj i t e =>
-    cases e' with
-    | proj i' t' e2 =>
-      simp only [aeE, Bool.and_eq_true, beq_iff_eq] at hae
-      obtain ⟨hi, he⟩ := hae; subst hi
-      simp only [cfE, scE, inE] at hcf hsc hin
-      simp only [eval, ihA σ N hσ ρ w e e2 B hcf hsc hB hin hρ he]
-    | _ => simp [aeE] at hae
-
-
-theorem vAL_step {S W : Prog} {n : Nat} (ihA : VA S W n) (ihL : VAL S W n) : VAL S W (n + 1) := by
-  intro σ N hσ ρ w es es' B hcf hsc hB hin hρ hae
-  cases es with
-  | nil =>
-    cases es' with
-    | nil => simp only [evalList]
-    | cons _ _ => simp [aeL] at hae
-  | cons e rest =>
-    cases es' with
-    | nil => simp [aeL] at hae
-    | cons e' rest' =>
-      simp only [aeL, Bool.and_eq_true] at hae
-      simp only [cfL, scL, inL, Bool.and_eq_true] at hcf hsc hin
-      simp only [evalList, ihA σ N hσ ρ w e e' B hcf.1 hsc.1 hB hin.1 hρ hae.1]
-      cases eval n S ρ w e with
-      | fail f w' => rfl
-      | ok v w' => simp only [ihL σ N hσ ρ w' rest rest' B hcf.2 hsc.2 hB hin.2 hρ hae.2]
-
-theorem vAA_step {S W : Prog} {n : Nat} (ihA : VA S W n) (ihAA : VAA S W n) : VAA S W (n + 1) := by
-  intro σ N hσ ρ w v arms arms' d d' B hcfa hcfd hsca hscd hB hina hind hρ haea haed
-  cases arms with
-  | nil =>
-    cases arms' with
-    | cons _ _ => simp [aeArms] at haea
-    | nil =>
-      cases d with
-      | none =>
-        cases d' with
-        | none => simp only [evalArms]
-        | some _ => simp [aeO] at haed
-      | some e =>
-        cases d' with
-        | none => simp [aeO] at haed
-        | some e' =>
-          simp only [aeO] at haed
-          simp only [cfO, scO, inO] at hcfd hscd hind
-          simp only [evalArms]
-          exact ihA σ N hσ ρ w e e' B hcfd hscd hB hind hρ haed
-  | cons a rest =>
-    cases arms' with
-    | nil => simp [aeArms] at haea
-    | cons a' rest' =>
-      cases a with
-      | mk l b =>
-        cases a' with
-        | mk l' b' =>
-          simp only [aeArms, aeArm, Bool.and_eq_true] at haea
-          simp only [cfArms, cfArm, scArms, scArm, inArms, inArm, Bool.and_eq_true] at hcfa hsca hina
-          simp only [evalArms, aeLhs_matches haea.1.1]
-          split
-          · exact ihA σ N hσ ρ w b b' B hcfa.1.2 hsca.1 hB hina.1 hρ haea.1.2
-          · exact ihAA σ N hσ ρ w v rest rest' d d' B hcfa.2 hcfd hsca.2 hscd hB hina.2 hind hρ haea.2 haed
-
-/-- what `validate` establishes, function by function -/
-structure HypV (σs : String → String → String) (Ns : String → List String) (S W : Prog) : Prop where
-  impls : ∀ tr key m, W.impls.find? (fun i => i.1 == tr && i.2.1 == key && i.2.2.1 == m) = S.impls.find? (fun i => i.1 == tr && i.2.1 == key && i.2.2.1 == m)
-  fns : ∀ n, (S.findFn n = none ∧ W.findFn n = none) ∨
-    ∃ fS fW, S.findFn n = some fS ∧ W.findFn n = some fW ∧ validFn (σs fS.name) (Ns fS.name) fS fW = true
-
-theorem vB_step {σs : String → String → String} {Ns : String → List String} {S W : Prog} (H : HypV σs Ns S W) {n : Nat}
-    (ihA : VA S W n) (ihB : VB S W n) : VB S W (n + 1) := by
-  obtain ⟨ih1, ih2, ih3, ih4⟩ := ihB
-  have himpl := H.impls
-  refine ⟨?_, ?_, ?_, ?_⟩
-  · intro ρ w e
-    cases e <;> simp only [eval, ih1, ih2, ih3, ih4, himpl]
-  · intro ρ w es
-    cases es <;> simp only [evalList, ih1, ih2]
-  · intro ρ w v arms d
-    cases arms with
-    | nil => simp only [evalArms, ih1]
-    | cons a as => cases a; simp only [evalArms, ih1, ih3]
-  · intro w f args
-    have hbody : ∀ (name : String) (args : List Val) (w : World),
-        (match W.findFn name with
-          | some fn => eval n W (bindParams (fn.params.map (fun p : String × Ty => p.1)) args []) w fn.body
-          | none => match builtin name args w with
-            | some r => r
-            | none => Res.ok Val.unit { w with externs := w.externs ++ [name] }) =
-        (match S.findFn name with
-          | some fn => eval n S (bindParams (fn.params.map (fun p : String × Ty => p.1)) args []) w fn.body
-          | none => match builtin name args w with
-            | some r => r
-            | none => Res.ok Val.unit { w with externs := w.externs ++ [name] }) := by
-      intro name args w
-      rcases H.fns name with ⟨hs, hw⟩ | ⟨fS, fW, hs, hw, hv⟩
-      · simp only [hs, hw]
-      · simp only [hs, hw]
-        simp only [validFn, Bool.and_eq_true, beq_iff_eq] at hv
-        obtain ⟨⟨⟨⟨⟨⟨hps, hae⟩, hinj⟩, hin⟩, hpN⟩, hcf⟩, hsc⟩ := hv
-        have hρ : EnvIn (Ns fS.name) (bindParams (fS.params.map (·.1)) args []) := by
-          have hps' : ∀ q ∈ fS.params.map (·.1), (Ns fS.name).contains q = true := by
-            simp only [List.all_eq_true] at hpN
-            intro q hq
-            simp only [List.mem_map] at hq
-            obtain ⟨p, hp, e⟩ := hq
-            rw [← e]; exact hpN p hp
-          exact envIn_bind _ _ _ _ hps' (fun p hp => by cases hp)
-        have := ihA (σs fS.name) (Ns fS.name) hinj (bindParams (fS.params.map (·.1)) args []) w fS.body fW.body [] hcf hsc
-          (fun x hx => by simp at hx) hin hρ hae
-        rw [renEnv_bind] at this
-        have hp2 : (fS.params.map (·.1)).map (σs fS.name) = fW.params.map (·.1) := by
-          rw [← hps]; simp [List.map_map, Function.comp_def]
-        rw [hp2] at this
-        simpa [renEnv] using this
-    cases f with
-    | closure ps body ρc => simp only [apply, ih1]
-    | fn name => simp only [apply]; exact hbody name args w
-    | structV sn fs =>
-      simp only [apply]
-      have := hbody ("inherent#" ++ sn ++ "#" ++ sn ++ "#apply") (Val.structV sn fs :: args) w
-      rcases H.fns ("inherent#" ++ sn ++ "#" ++ sn ++ "#apply") with ⟨hs, hw⟩ | ⟨fS, fW, hs, hw, hv⟩
-      · simp only [hs, hw]
-      · simpa only [hs, hw] using this
-    | _ => simp only [apply]
-
-theorem valid_all {σs : String → String → String} {Ns : String → List String} {S W : Prog} (H : HypV σs Ns S W) :
-    ∀ fuel, VA S W fuel ∧ VAL S W fuel ∧ VAA S W fuel ∧ VB S W fuel := by
-  intro fuel
-  induction fuel with
-  | zero =>
-    refine ⟨?_, ?_, ?_, ?_, ?_, ?_, ?_⟩
-    · intro σ N _ ρ w e e' B _ _ _ _ _ _; simp [eval]
-    · intro σ N _ ρ w es es' B _ _ _ _ _ _; simp [evalList]
-    · intro σ N _ ρ w v arms arms' d d' B _ _ _ _ _ _ _ _ _ _; simp [evalArms]
-    · intro ρ w e; simp [eval]
-    · intro ρ w es; simp [evalList]
-    · intro ρ w v arms d; simp [evalArms]
-    · intro w f args; simp [apply]
-  | succ n ih =>
-    obtain ⟨ihA, ihL, ihAA, ihB⟩ := ih
-    exact ⟨vA_step H.impls ihA ihL ihAA ihB, vAL_step ihA ihL, vAA_step ihA ihAA, vB_step H ihA ihB⟩
-
 
 theorem implsAgree_find {A B : List (String × String × String × String)} (h : implsAgree A B = true) (tr key m : String) :
     A.find? (fun i => i.1 == tr && i.2.1 == key && i.2.2.1 == m) = B.find? (fun i => i.1 == tr && i.2.1 == key && i.2.2.1 == m) := by
@@ -431,8 +60,148 @@ theorem validate_hyp {σs : String → String → String} {Ns : String → List 
 /-- **the validator is sound**: if `validate` accepts, the two programs run alike -/
 theorem validate_sound {σs : String → String → String} {Ns : String → List String} {S W : Prog}
     (h : validate σs Ns S W = true) (fuel : Nat) (entry : String) (eager : Bool) :
-    run fuel W entry eager = run fuel S entry eager := by
-  have := (valid_all (validate_hyp h) fuel).2.2.2.2.2.2 { eager := eager } (.fn entry) []
-  simp only [run, this]
+    run fuel W entry eager = run fuel S entry eager :=
+  run_rel (validate_hyp h) fuel entry eager
+
+/-! ### the renaming theorem, closures included -/
+
+theorem eqPrim_refl (p : Prim) : eqPrim p p = true := by
+  cases p <;> simp [eqPrim]
+
+theorem aeLhs_ren (σ : String → String) (l : Expr) : aeLhs l (renE σ l) = true := by
+  cases l <;> simp [renE, aeLhs, isHead, eqPrim_refl]
+
+mutual
+theorem aeE_ren (σ : String → String) : ∀ e : Expr, aeE σ e (renE σ e) = true
+  | .var x t => by simp [aeE, renE]
+  | .prim p => by simp [aeE, renE, eqPrim_refl]
+  | .tag i t => by simp [aeE, renE]
+  | .constr c t args => by simp [aeE, renE, aeL_ren σ args]
+  | .tuple t items => by simp [aeE, renE, aeL_ren σ items]
+  | .array t items => by simp [aeE, renE, aeL_ren σ items]
+  | .closure t ps b => by simp [aeE, renE, aeE_ren σ b, List.map_map, Function.comp_def]
+  | .letE x v b => by simp [aeE, renE, aeE_ren σ v, aeE_ren σ b]
+  | .matchE t s arms d => by simp [aeE, renE, aeE_ren σ s, aeArms_ren σ arms, aeO_ren σ d]
+  | .ite c t e => by simp [aeE, renE, aeE_ren σ c, aeE_ren σ t, aeE_ren σ e]
+  | .while c b => by simp [aeE, renE, aeE_ren σ c, aeE_ren σ b]
+  | .go e => by simp [aeE, renE, aeE_ren σ e]
+  | .cget c i t e => by simp [aeE, renE, aeE_ren σ e]
+  | .un op t e => by simp [aeE, renE, aeE_ren σ e]
+  | .bin op t l r => by simp [aeE, renE, aeE_ren σ l, aeE_ren σ r]
+  | .call t f args => by simp [aeE, renE, aeE_ren σ f, aeL_ren σ args]
+  | .toDyn tr ft t e => by simp [aeE, renE, aeE_ren σ e]
+  | .dynCall tr m t r args => by simp [aeE, renE, aeE_ren σ r, aeL_ren σ args]
+  | .traitCall tr m t r args => by simp [aeE, renE, aeE_ren σ r, aeL_ren σ args]
+  | .proj i t e => by simp [aeE, renE, aeE_ren σ e]
+theorem aeL_ren (σ : String → String) : ∀ es : List Expr, aeL σ es (renL σ es) = true
+  | [] => by simp [aeL, renL]
+  | e :: es => by simp [aeL, renL, aeE_ren σ e, aeL_ren σ es]
+theorem aeArms_ren (σ : String → String) : ∀ arms : List Arm, aeArms σ arms (renArms σ arms) = true
+  | [] => by simp [aeArms, renArms]
+  | a :: as => by simp [aeArms, renArms, aeArm_ren σ a, aeArms_ren σ as]
+theorem aeArm_ren (σ : String → String) : ∀ a : Arm, aeArm σ a (renArm σ a) = true
+  | .mk l b => by simp [aeArm, renArm, aeLhs_ren σ l, aeE_ren σ b]
+theorem aeO_ren (σ : String → String) : ∀ d : Option Expr, aeO σ d (renO σ d) = true
+  | none => by simp [aeO, renO]
+  | some e => by simp [aeO, renO, aeE_ren σ e]
+end
+
+/-- the hypotheses of the renaming theorem with closures; `Ns f` = the names function `f` mentions. All decidable. -/
+structure HypC (σs : String → String → String) (Ns : String → List String) (P : Prog) : Prop where
+  inj : ∀ f ∈ P.fns, injOn (σs f.name) (Ns f.name) = true
+  names : ∀ f ∈ P.fns, inE (Ns f.name) f.body = true ∧ (f.params.all fun p => (Ns f.name).contains p.1) = true
+  sc : ∀ f ∈ P.fns, scC (moved (σs f.name)) [] f.body = true
+
+theorem hypC_hypV {σs : String → String → String} {Ns : String → List String} {P : Prog} (H : HypC σs Ns P) :
+    HypV σs Ns P (renP σs P) := by
+  refine ⟨fun _ _ _ => rfl, ?_⟩
+  intro n
+  rw [findFn_renP]
+  cases hf : P.findFn n with
+  | none => exact Or.inl ⟨rfl, rfl⟩
+  | some f =>
+    have hmem : f ∈ P.fns := List.mem_of_find?_eq_some hf
+    refine Or.inr ⟨f, renFn (σs f.name) f, rfl, rfl, ?_⟩
+    have hsc := H.sc f hmem
+    simp only [validFn, Bool.and_eq_true, beq_iff_eq]
+    refine ⟨⟨⟨⟨⟨?_, aeE_ren _ _⟩, H.inj f hmem⟩, (H.names f hmem).1⟩, (H.names f hmem).2⟩, hsc⟩
+    simp [renFn, List.map_map, Function.comp_def]
+
+theorem run_alpha_full {σs : String → String → String} {Ns : String → List String} {P : Prog} (H : HypC σs Ns P)
+    (fuel : Nat) (entry : String) (eager : Bool) : run fuel (renP σs P) entry eager = run fuel P entry eager :=
+  run_rel (hypC_hypV H) fuel entry eager
+
+/-! ### the closure-free theorem of round 1 is a special case -/
+
+mutual
+theorem scC_of_cf (m : String → Bool) : ∀ (e : Expr) (B : List String), cfE e = true → scE m B e = true → scC m B e = true
+  | .var x t, B, _, hs => by simpa only [scE, scC] using hs
+  | .prim _, _, _, _ => by simp only [scC]
+  | .tag _ _, _, _, _ => by simp only [scC]
+  | .constr c t args, B, hc, hs => by
+    simp only [cfE, scE] at hc hs; simp only [scC]; exact scCL_of_cf m args B hc hs
+  | .tuple t items, B, hc, hs => by
+    simp only [cfE, scE] at hc hs; simp only [scC]; exact scCL_of_cf m items B hc hs
+  | .array t items, B, hc, hs => by
+    simp only [cfE, scE] at hc hs; simp only [scC]; exact scCL_of_cf m items B hc hs
+  | .closure t ps b, B, hc, _ => by simp [cfE] at hc
+  | .letE x v b, B, hc, hs => by
+    simp only [cfE, scE, Bool.and_eq_true] at hc hs; simp only [scC, Bool.and_eq_true]
+    exact ⟨scC_of_cf m v B hc.1 hs.1, scC_of_cf m b (x :: B) hc.2 hs.2⟩
+  | .matchE t s arms d, B, hc, hs => by
+    simp only [cfE, scE, Bool.and_eq_true] at hc hs; simp only [scC, Bool.and_eq_true]
+    exact ⟨⟨scC_of_cf m s B hc.1.1 hs.1.1, scCArms_of_cf m arms B hc.1.2 hs.1.2⟩, scCO_of_cf m d B hc.2 hs.2⟩
+  | .ite c t e, B, hc, hs => by
+    simp only [cfE, scE, Bool.and_eq_true] at hc hs; simp only [scC, Bool.and_eq_true]
+    exact ⟨⟨scC_of_cf m c B hc.1.1 hs.1.1, scC_of_cf m t B hc.1.2 hs.1.2⟩, scC_of_cf m e B hc.2 hs.2⟩
+  | .while c b, B, hc, hs => by
+    simp only [cfE, scE, Bool.and_eq_true] at hc hs; simp only [scC, Bool.and_eq_true]
+    exact ⟨scC_of_cf m c B hc.1 hs.1, scC_of_cf m b B hc.2 hs.2⟩
+  | .go e, B, hc, hs => by
+    simp only [cfE, scE] at hc hs; simp only [scC]; exact scC_of_cf m e B hc hs
+  | .cget c i t e, B, hc, hs => by
+    simp only [cfE, scE] at hc hs; simp only [scC]; exact scC_of_cf m e B hc hs
+  | .un op t e, B, hc, hs => by
+    simp only [cfE, scE] at hc hs; simp only [scC]; exact scC_of_cf m e B hc hs
+  | .bin op t l r, B, hc, hs => by
+    simp only [cfE, scE, Bool.and_eq_true] at hc hs; simp only [scC, Bool.and_eq_true]
+    exact ⟨scC_of_cf m l B hc.1 hs.1, scC_of_cf m r B hc.2 hs.2⟩
+  | .call t f args, B, hc, hs => by
+    simp only [cfE, scE, Bool.and_eq_true] at hc hs; simp only [scC, Bool.and_eq_true]
+    exact ⟨scC_of_cf m f B hc.1 hs.1, scCL_of_cf m args B hc.2 hs.2⟩
+  | .toDyn tr ft t e, B, hc, hs => by
+    simp only [cfE, scE] at hc hs; simp only [scC]; exact scC_of_cf m e B hc hs
+  | .dynCall tr mm t r args, B, hc, hs => by
+    simp only [cfE, scE, Bool.and_eq_true] at hc hs; simp only [scC, Bool.and_eq_true]
+    exact ⟨scC_of_cf m r B hc.1 hs.1, scCL_of_cf m args B hc.2 hs.2⟩
+  | .traitCall tr mm t r args, B, hc, hs => by
+    simp only [cfE, scE, Bool.and_eq_true] at hc hs; simp only [scC, Bool.and_eq_true]
+    exact ⟨scC_of_cf m r B hc.1 hs.1, scCL_of_cf m args B hc.2 hs.2⟩
+  | .proj i t e, B, hc, hs => by
+    simp only [cfE, scE] at hc hs; simp only [scC]; exact scC_of_cf m e B hc hs
+theorem scCL_of_cf (m : String → Bool) : ∀ (es : List Expr) (B : List String), cfL es = true → scL m B es = true → scCL m B es = true
+  | [], _, _, _ => by simp only [scCL]
+  | e :: es, B, hc, hs => by
+    simp only [cfL, scL, Bool.and_eq_true] at hc hs; simp only [scCL, Bool.and_eq_true]
+    exact ⟨scC_of_cf m e B hc.1 hs.1, scCL_of_cf m es B hc.2 hs.2⟩
+theorem scCArms_of_cf (m : String → Bool) : ∀ (arms : List Arm) (B : List String), cfArms arms = true → scArms m B arms = true → scCArms m B arms = true
+  | [], _, _, _ => by simp only [scCArms]
+  | a :: as, B, hc, hs => by
+    simp only [cfArms, scArms, Bool.and_eq_true] at hc hs; simp only [scCArms, Bool.and_eq_true]
+    exact ⟨scCArm_of_cf m a B hc.1 hs.1, scCArms_of_cf m as B hc.2 hs.2⟩
+theorem scCArm_of_cf (m : String → Bool) : ∀ (a : Arm) (B : List String), cfArm a = true → scArm m B a = true → scCArm m B a = true
+  | .mk l b, B, hc, hs => by
+    simp only [cfArm, scArm, Bool.and_eq_true] at hc hs; simp only [scCArm]
+    exact scC_of_cf m b B hc.2 hs
+theorem scCO_of_cf (m : String → Bool) : ∀ (d : Option Expr) (B : List String), cfO d = true → scO m B d = true → scCO m B d = true
+  | none, _, _, _ => by simp only [scCO]
+  | some e, B, hc, hs => by
+    simp only [cfO, scO] at hc hs; simp only [scCO]; exact scC_of_cf m e B hc hs
+end
+
+/-- the hypotheses of the closure-free theorem imply those of the theorem with closures -/
+theorem hyp_hypC {σs : String → String → String} {Ns : String → List String} {P : Prog} (H : Hyp σs Ns P) : HypC σs Ns P :=
+  ⟨H.inj, H.names, fun f hf => scC_of_cf _ f.body [] (by
+      have := H.cf; simp only [cfP, List.all_eq_true] at this; exact this f hf) (H.sc f hf)⟩
 
 end Goml.Alpha
